@@ -297,6 +297,131 @@ def check_bool_vector():
     return None
 
 
+def check_bool_vector_defined():
+    """Digests-style vector: allAreDefined byte, then (if 0) the bit vector"""
+    for count in range(0, 18):
+        for first in (0x00, 0x01, 0xFF):
+            for pattern in (0x00, 0xFF, 0xA5):
+                data = bytes([first]) + bytes([pattern]) * 4
+                r = reader_on(data)
+                got = r._read_boolean_vector(count, check_defined=True)
+                if first:
+                    want, end = [True] * count, 1
+                else:
+                    want, end = [bool(data[1 + i // 8] & (0x80 >> (i % 8))) for i in range(count)], 1 + (count + 7) // 8
+                if list(got) != want or r._stream.tell() != end:
+                    return {"target": "sevenzip.py::SevenZipReader._read_boolean_vector", "inputs": {"count": count, "check_defined": True, "stream_hex": data.hex()},
+                            "expected": f"{want} pos={end}", "observed": f"{list(got)} pos={r._stream.tell()}"}
+    return None
+
+
+def spec_digests(data, p, n):
+    """position after a Digests(n) section starting at p (7zFormat.txt)"""
+    if data[p]:
+        return p + 1 + 4 * n
+    defined = [bool(data[p + 1 + i // 8] & (0x80 >> (i % 8))) for i in range(n)]
+    return p + 1 + (n + 7) // 8 + 4 * sum(defined)
+
+
+def spec_pack_info(data):
+    """independent parse of a PackInfo section -> (absolute pack position, sizes, end) | None | 'bad'"""
+    if data[0] != 0x06:
+        return None
+    p = 1
+    pos, k = number_spec(data, p); p += k
+    n, k = number_spec(data, p); p += k
+    sizes = []
+    t = data[p]; p += 1
+    if t == 0x09:
+        for _ in range(n):
+            v, k = number_spec(data, p); p += k
+            sizes.append(v)
+        t = data[p]; p += 1
+    if t == 0x0A:
+        p = spec_digests(data, p, n)
+        t = data[p]; p += 1
+    return (32 + pos, sizes, p) if t == 0 else "bad"
+
+
+def check_pack_info():
+    """SevenZipReader._parse_pack_info against the PackInfo grammar: 0..4 streams, with / without sizes, every digest layout"""
+    import itertools as _it
+    from sharepoint2text.parsing.extractors.util.sevenzip import Bad7zFile
+    for n in range(0, 5):
+        size_sets = [[(7 * j + 3) * (200 ** (j % 3)) for j in range(n)]]
+        for sizes in size_sets:
+            for with_sizes in (True, False):
+                digest_variants = [None, b"\x01" + b"\xAA\xBB\xCC\xDD" * n]
+                for bits in _it.product((0, 1), repeat=n):
+                    digest_variants.append(b"\x00" + bitvec(bits) + b"\x11\x22\x33\x44" * sum(bits))
+                for dg in digest_variants:
+                    for end in (b"\x00", b"\x07"):
+                        data = b"\x06" + number(5 + n) + number(n)
+                        if with_sizes:
+                            data += b"\x09" + b"".join(number(x) for x in sizes)
+                        if dg is not None:
+                            data += b"\x0a" + dg
+                        data += end + b"\xEE" * 3
+                        want = spec_pack_info(data)
+                        r = reader_on(data)
+                        r._header_offset, r._pack_positions, r._pack_sizes = 32, [], []
+                        try:
+                            res = r._parse_pack_info()
+                            got = (res[0], list(res[1]), r._stream.tell()) if res is not None else None
+                            if got is not None and (list(r._pack_sizes) != got[1] or list(r._pack_positions)[:1] != [got[0]]):
+                                got = ("fields differ", list(r._pack_positions), list(r._pack_sizes))
+                        except Bad7zFile:
+                            got = "bad"
+                        except Exception as e:  # noqa
+                            got = f"{type(e).__name__}: {e}"
+                        if got != want:
+                            return {"target": "sevenzip.py::SevenZipReader._parse_pack_info", "inputs": {"stream_hex": data.hex()},
+                                    "expected": f"(absolute position, sizes, end of section) = {want}", "observed": str(got)}
+    return None
+
+
+class _FailingMember:
+    """a real TarFile whose extractfile() fails for ONE member (a member whose data cannot be read)"""
+
+    def __init__(self, tf, bad):
+        self._tf, self._bad = tf, bad
+
+    def __getattr__(self, name):
+        return getattr(self._tf, name)
+
+    def __enter__(self):
+        self._tf.__enter__()
+        return self
+
+    def __exit__(self, *a):
+        return self._tf.__exit__(*a)
+
+    def extractfile(self, member):
+        if member.name == self._bad:
+            raise OSError("unreadable member (injected)")
+        return self._tf.extractfile(member)
+
+
+def check_tar_member_read_failure():
+    """a TAR member whose bytes cannot be read affects only itself: the other members still come out, in order"""
+    from sharepoint2text.parsing.extractors import archive_extractor as ae
+    entries = list(DOCS[:4])
+    data = write_tar(entries, "w")
+    real_open = ae.tarfile.open
+    for bad in (entries[0][0], entries[1][0], entries[3][0]):
+        ae.tarfile.open = lambda *a, **k: _FailingMember(real_open(*a, **k), bad)
+        try:
+            got, err = run_archive(data, "a.tar")
+        finally:
+            ae.tarfile.open = real_open
+        want = expected([e for e in entries if e[0] != bad], "a.tar")
+        d = first_diff(got, want)
+        if err is not None or d is not None:
+            return {"target": "archive_extractor.py::_extract_from_tar_optimized", "inputs": {"members": [n for n, _b in entries], "unreadable_member": bad},
+                    "expected": "the results of the readable members, in order", "observed": (err + "; " if err else "") + (d or "")}
+    return None
+
+
 def check_detect():
     from sharepoint2text.parsing.extractors.archive_extractor import _detect_archive_type_optimized
     for label, _aname, build in LAYOUTS:
@@ -393,19 +518,26 @@ def find(req):
         return r
     ob = req.get("obligation", "") or ""
     checks = []
+    ALL = [check_read_number, check_bool_vector, check_bool_vector_defined, check_pack_info, check_detect, check_7z_bytes,
+           check_tar_member_read_failure, matrix]
     if "native-scope" in ob:
-        checks = [check_read_number, check_bool_vector, check_detect, check_7z_bytes, matrix]
+        checks = ALL
     elif "_read_number" in ob or "_read_uint" in ob or "_read_bytes" in ob:
         checks = [check_read_number]
     elif "_read_boolean_vector" in ob:
-        checks = [check_bool_vector]
+        checks = [check_bool_vector, check_bool_vector_defined]
+    elif "_parse_pack_info" in ob:
+        checks = [check_pack_info, check_7z_bytes, lambda: matrix(lambda l: l.startswith("7z"))]
     elif "extractall" in ob or "_decompress_folder" in ob:
         checks = [lambda: finding("F10-one-folder-per-file"), lambda: matrix(lambda l: l.startswith("7z"))]
     elif "empty-file-is-not-a-directory" in ob:
         checks = [lambda: finding("F25-7z-empty-file-taken-for-directory")]
     elif "_build_file_list" in ob or "_extract_files_from_folder" in ob or "_parse_" in ob or "_7z" in ob:
         checks = [check_7z_bytes, lambda: matrix(lambda l: l.startswith("7z"))]
-    elif "plain-tar-detected-as-tar" in ob:
+    elif "outside-F26" in ob:
+        # the clause that EXCLUDES the recorded class F26: its own witness does not count
+        checks = [check_detect, lambda: matrix(lambda l: l.startswith("tar"))]
+    elif ob.endswith("plain-tar-detected-as-tar"):
         checks = [lambda: finding("F26-plain-tar-first-name-starts-with-another-magic")]
     elif "empty-tar" in ob:
         checks = [lambda: finding("F27-empty-plain-tar-not-recognised")]
@@ -414,9 +546,9 @@ def find(req):
     elif "_zip_" in ob:
         checks = [lambda: matrix(lambda l: l.startswith("zip"))]
     elif "_tar_" in ob:
-        checks = [lambda: matrix(lambda l: l.startswith("tar"))]
+        checks = [check_tar_member_read_failure, lambda: matrix(lambda l: l.startswith("tar"))]
     else:
-        checks = [check_read_number, check_bool_vector, check_detect, check_7z_bytes, matrix]
+        checks = ALL
     for ck in checks:
         r = ck()
         if r is not None:
